@@ -78,6 +78,24 @@ def interpreters():
     return out
 
 
+def compat_single(version, case, timeout=120):
+    """one case through vf/compat_worker.py inside the named interpreter (replay of cross-interpreter witnesses)"""
+    import json
+    import subprocess
+    py = dict(interpreters()).get(version)
+    if py is None:
+        return {'inconclusive': 'interpreter %s not installed' % version}
+    env = clean_env()
+    env['PYTHONPATH'] = REPO_SRC
+    env['PYTHONHASHSEED'] = '0'
+    p = subprocess.run([py, '-W', 'ignore', os.path.join(VERIF, 'vf', 'compat_worker.py')], input=(json.dumps({'batch': [case]}) + '\n').encode('utf-8'),
+                       stdout=subprocess.PIPE, stderr=subprocess.PIPE, env=env, timeout=timeout)
+    try:
+        return json.loads(p.stdout.decode('utf-8').strip().split('\n')[-1])['batch'][0]
+    except Exception as e:
+        return {'inconclusive': 'compat worker gave no result: %s %s' % (e, p.stderr.decode('utf-8', 'replace')[-300:])}
+
+
 def pyenv_interpreters():
     return [(v, p) for v, p in interpreters() if v != '3.12-venv']
 
